@@ -668,7 +668,7 @@ package larking
 //@   assert at "herr := hd.handler(&m.opts, stream)" #2 [a-request-body-is-read-whatever-announces-it C03] (r.ContentLength > 0 || r.ContentLength == -1) ==> stream#2.hasBody
 //@   assert at "herr := hd.handler(&m.opts, stream)" #2 [no-body-is-read-from-an-empty-request C03] r.ContentLength == 0 ==> !stream#2.hasBody
 //@   count zcloses `zc.Close(`
-//@   ensures [a-compressor-closed-by-the-body-is-not-closed-again-on-the-way-out C13] at every return zcloses >= 1 ==> zc == nil
+//@   ensures [a-compressor-closed-by-the-body-is-not-closed-again-on-the-way-out C13 C04] at every return zcloses >= 1 ==> zc == nil
 //@   count loads `m.loadState(`
 //@   count begins `sh.HandleRPC(ctx, &stats.Begin{`
 //@   count ends `sh.HandleRPC(ctx, &stats.End{`
